@@ -2,7 +2,7 @@
 (***************************************************************************)
 (* L1: what a response header's text MEANS.  A header declared with a      *)
 (* schema is written in style "simple" (OAS 3.0.3, the only style of a     *)
-(* header); ParamCodec!HeaderVal is that style as a function value -> text.*)
+(* header); ParamCodec!HeaderCs is that style as a function value -> text. *)
 (* Reading is its inverse: TextReadings(cs, explode) is the set of ALL JSON    *)
 (* values whose simple-style serialisation is the text cs (a sequence of   *)
 (* one-character strings).  A text usually has several readings ("1" is    *)
@@ -43,7 +43,7 @@ SplitAt(cs, sep) ==                                 \* like strings.Split: the e
    ELSE LET i == CHOOSE i \in DOMAIN cs : cs[i] = sep /\ \A j \in 1..(i - 1) : cs[j] # sep
         IN <<SubSeq(cs, 1, i - 1)>> \o SplitAt(SubSeq(cs, i + 1, Len(cs)), sep)
 
-(* canonical decimal spellings of the numbers of the universe (quarters); a subset of ParamCodec!NumText *)
+(* canonical decimal spellings of the numbers of the universe (quarters); a subset of ParamCodec!NumCs *)
 NumTable == { [cs |-> <<"0">>, q |-> 0], [cs |-> <<"1">>, q |-> 4], [cs |-> <<"2">>, q |-> 8], [cs |-> <<"3">>, q |-> 12],
               [cs |-> <<"7">>, q |-> 28], [cs |-> <<"1", "2">>, q |-> 48], [cs |-> <<"1", ".", "5">>, q |-> 6],
               [cs |-> <<"-", "1">>, q |-> -4] }
@@ -66,7 +66,7 @@ ArrReadings(cs, mode) ==
    ELSE {Arr(a) : a \in Products(SplitAt(cs, ","), mode)}
 
 (* object keys of the universe, in sorted order (TLC cannot compare strings) *)
-KeyRank(k) == CASE k = <<"a">> -> 1 [] k = <<"b">> -> 2 [] k = <<"c">> -> 3 [] OTHER -> 0
+KeyRank(k) == CASE k = <<"x">> -> 1 [] k = <<"y">> -> 2 [] k = <<"z">> -> 3 [] OTHER -> 0       \* names of ParamCodec!KeyCs
 Ascending(ks) == /\ \A i \in DOMAIN ks : KeyRank(ks[i]) > 0
                  /\ \A i, j \in DOMAIN ks : i < j => KeyRank(ks[i]) < KeyRank(ks[j])
 
@@ -103,5 +103,5 @@ HCell(explode) == [in |-> "header", style |-> "simple", explode |-> explode]
 TextReadingsSound(texts) ==
    \A cs \in texts, e \in BOOLEAN : \A v \in TextReadings(cs, e, "str") :
       /\ ShapeDefined(HCell(e), v)
-      /\ Wire(HCell(e), "X-A", v).val = Concat(cs)
+      /\ HeaderCs(HCell(e), v) = cs
 =============================================================================
